@@ -5,6 +5,7 @@ function on every byte string: a Go panic is the explicit outcome `reject` (the 
 it and disconnects), so "never crashes" is totality + the session-level theorems of C02/C07.
 -/
 import Teleport.Lemmas.RawRead
+import Teleport.Gen.Frames
 namespace Teleport
 namespace C06
 open Raw
@@ -91,6 +92,65 @@ theorem C06_outcome_classified (reg : Registry) (limit cap0 : Nat) (inp : Bytes)
 
 /-! Non-vacuity: a concrete oversize announcement. -/
 example : Bytes.rdBe32 0x7f 0xff 0xff 0xff > 1024 := by decide
+
+/-! ## tie A: how each protocol sizes its read buffers (`Teleport.Gen.Frames`, regenerated from the
+protocol packages and `session.go` on every run by `srcfacts`). -/
+
+/-- the size checks that count: `m.SetSize(v)` whose error is returned (it compares with the read limit),
+    or an explicit comparison with the limit whose branch returns an error — in the same function, or in
+    the caller before the call of a helper. -/
+def sizeChecks : List String := ["SetSize", "limit-compare", "SetSize@caller", "limit-compare@caller"]
+
+/-- **Size check before allocation, for every protocol.** `Raw.unpack` compares the announced size with
+    the limit BEFORE the buffer is grown (`if size > limit then ⟨.size, 4, 4⟩`), which is what
+    `C06_alloc_bound` and `C06_oversize_early` are about; the oracles of the other protocols assume the
+    same. Justified iff in `Unpack` and the same-receiver helpers it calls, EVERY `ChangeLen(x)` /
+    `make([]T, x)` whose `x` is not a literal constant is lexically dominated, in the same function, by a
+    size check on a value `x` is derived from (or on `m.Size()`), and no such call sits in a loop. The
+    protocols that size a buffer from received data in this repository are exactly raw, json, pb and
+    http (after fix 80ca4d0); thrift reads through the library's THeader transport and the websocket
+    sub-protocols through `ReadAll` (`C06_unbounded_growth_known`). -/
+theorem C06_size_check_dominates_alloc :
+    Gen.frames_missing = [] ∧
+    Gen.frames_protocols = ["raw", "json", "pb", "http", "thrift-binary", "thrift-struct", "ws-json", "ws-pb"] ∧
+    Gen.frames_unpack_allocs.all (fun r =>
+      r.2.2.2.1 == "const" || (r.2.2.2.1 == "data" && sizeChecks.contains r.2.2.2.2)) = true ∧
+    ((Gen.frames_unpack_allocs.filter (fun r => r.2.2.2.1 == "data")).map (·.1)).eraseDups = ["raw", "json", "pb", "http"] := by
+  decide
+
+/-- **`readMessage` has the shape of `Raw.unpack`**: a constant 4-byte buffer for the length prefix;
+    `SetSize` (↔ `if size > limit`); `minus(lastSize, 4)` with its error returned (↔ `if size < 4 then
+    reject`); the first data-sized buffer (↔ `alloc = max 4 last`); `minus(lastSize, 1 + xferLen)` with its
+    error returned (↔ `if last < 1 + xferLen then reject` in `unpackTail`); the second data-sized buffer —
+    all unconditional; and `minus` refuses exactly a negative difference or a negative subtrahend. -/
+theorem C06_raw_read_shape :
+    Gen.frames_missing = [] ∧
+    Gen.frames_raw_read_landmarks =
+      ["alloc:const", "SetSize:returned", "minus:returned", "alloc:data", "minus:returned", "alloc:data"] ∧
+    Gen.frames_raw_minus_guard = ["$d < 0 || $1 < 0"] := by
+  decide
+
+/-- **What is NOT bounded by a size check, by name** (so that a new unbounded read cannot appear
+    silently): `httproto.readLine` appends byte by byte until a newline (a header line has no length
+    limit; DESIGN §5 C06), `httproto.unpack` accumulates the header lines when the debug option
+    `printMessage` is on, and the two websocket sub-protocols `ReadAll` one websocket frame (bounded by
+    the websocket layer's `MaxPayloadBytes`, outside this repository's protocol code). -/
+theorem C06_unbounded_growth_known :
+    Gen.frames_missing = [] ∧
+    Gen.frames_unbounded_growth = [
+      ("http", "readLine", "loop:Write"),
+      ("http", "unpack", "loop:append"),
+      ("ws-json", "Unpack", "ReadAll"),
+      ("ws-pb", "Unpack", "ReadAll")] := by
+  decide
+
+/-- **A Go panic while reading is the outcome `reject`, not a crash** (`Raw.Out.reject`; file header):
+    `session.startReadAndHandle` registers, before its read loop, a deferred function that itself calls
+    `recover()`; the loop that calls `socket.ReadMessage` comes after it. -/
+theorem C06_read_loop_recovers :
+    Gen.frames_missing = [] ∧
+    Gen.frames_readloop_landmarks = ["defer:recover", "loop:ReadMessage"] := by
+  decide
 
 end C06
 end Teleport
